@@ -250,7 +250,7 @@ def run_case(R, level, op, args, community="public", ctx_name=b"", ctx_engine=b"
         # intended ones by configure() / inside a reconfigure() block
         from puresnmp import Client as _Client
 
-        c = _Client("192.0.2.1", rig.credentials_for(via[1], community="initial"), sender=w.seam, **ckw)
+        c = _Client("192.0.2.1", rig.initial_credentials(via, community), sender=w.seam, **ckw)
         if via[0] == "configure":
             c.configure(credentials=w.creds)
     case["via"] = list(via) if via else None
@@ -448,6 +448,10 @@ def run(R):
         via = None
         if rng.random() < 0.3:
             via = (rng.choice(("configure", "reconfigure")), rng.choice([lv for lv in ("v1", "v2c", "v3-noauth", "v3-md5", "v3-sha1-priv") if lv != level]))
+            if rng.random() < 0.5:
+                # same community string / same user and passwords: only the family differs
+                other = {"v1": "v2c", "v2c": "v1"}.get(level) or rng.choice([lv for lv in rig.V3_LEVELS if lv != level])
+                via = (via[0], other, "same")
         run_case(R, level, op, args, community, ctx_name, ctx_engine, rid, rid_patched, via=via)
     # behavioural id check on an operation that cannot fail for other reasons
     if R.shard == 0 or R.tier == "thorough":
